@@ -4,6 +4,7 @@ CONSTANTS
   MaxSends = 3
   MaxWakes = 2
   Horizon = 3
+  Repaired = TRUE
   WakeDelays = {0, 1, 2}
 INVARIANTS BufferBounds TickDiscipline GuardSound TimeBounded Emit
 CHECK_DEADLOCK TRUE
